@@ -2,7 +2,7 @@
 
 PROP = {
     "targets": ["Props/C01.vo", "Corr/CorrCore.vo"],
-    "cone": ["BC/CompileProofs.v"],
+    "cone": ["BC/CompileProofs.v", "BC/RunProofs.v", "BC/SemFacts.v"],
     "harness": "c01",
     "mismatch_div": 16,
     "failure_bits": 8,
